@@ -1,23 +1,26 @@
 /-
   Tranp.Model.DI — executable model of the dependency container (property C19).
 
-  Modelled code (rog-works/tranp, pinned tree):
+  Modelled code (rog-works/tranp, tree with the repairs c3fd82c (invoke) and 6d5a231 (combine)):
     rogw/tranp/lang/di.py        DI (bind / unbind / rebind / resolve / can_resolve / invoke / _clone / combine,
-                                 __find_symbol, _acceptable_symbol, __pluck_annotations, __assert_invoke)
+                                 __find_symbol, _acceptable_symbol, __to_annotated, __pluck_annotations,
+                                 __assert_invoke, _binded)
                                  LazyDI (instantiate / __register / __unregister / can_resolve / __symbolize / bind /
-                                 unbind / resolve / __bind_proxy / _clone / combine; rebind is inherited)
-    rogw/tranp/lang/module.py    to_fullyname (qualified name of a factory), load_module_path (by-name definitions)
+                                 unbind / resolve / __bind_proxy / _binded / _clone / combine; rebind is inherited)
+    rogw/tranp/lang/module.py    to_fullyname (symbol paths of LazyDI), load_module_path (by-name definitions)
     rogw/tranp/lang/locator.py   Locator protocol (can_resolve / resolve / invoke)
 
   Two layers.
   * concrete (`Cont`, `State`, `step`): the four dictionaries exactly as the code keeps them — `instances`,
     `injectors` (keyed by the symbol after `__origin__` normalisation), `invocations` (annotation cache keyed by the
-    factory's qualified name), `definitions` (LazyDI) — and a heap of containers, because `_clone`/`combine`
+    callable whose annotations are read), `definitions` (LazyDI) — and a heap of containers, because `_clone`/`combine`
     create new ones.
   * abstract (`SCont`, `Spec`, `specStep`): per container one map `symbol ↦ (effective binding, lazy?, instance?)`
-    plus the annotation memo; `abs` is the abstraction function. `Props/C19.lean` proves the forward simulation.
-    The Spec describes the *pinned* code: its `combineEnt` and its memo-driven `sInvokeWith` contain the deviations
-    from the ideal laws (`preferRight`, `sInvokeFill`), which are stated, refuted and partially proved separately.
+    and nothing else; `abs` is the abstraction function (it forgets the annotation cache, which is unobservable
+    because a cached value is always the annotation list of its own key). `Props/C19.lean` proves the forward
+    simulation. In the Spec `combine` is the right-biased choice per symbol (`preferRight`) and `invoke` is the invoke
+    law itself (`sInvokeFill`): curry the leading resolvable annotated parameters of the factory, validate the rest on
+    every call, then call.
     Binding generations are not numbered in the state: they are the stretches of a history between two
     bind / rebind / unbind ops of one symbol on one container (`touches`).
 
@@ -25,9 +28,9 @@
   * Python dicts are association lists (`Dict`). No code path of di.py iterates over `instances`, `injectors`,
     `definitions` or `invocations` (only `{**a, **b}` merges and key lookups), so insertion order is unobservable;
     `Dict.merge` is chosen such that its lookup law holds unconditionally.
-  * A factory is the record of what di.py can see of it: object identity, `to_fullyname` (absent for a callable
-    object without `__qualname__`), and the positional parameters with their annotation (`none` = unannotated, which
-    `__annotations__` does not list).
+  * A factory is the record of what di.py can see of it: object identity, the identity of the callable whose
+    `__annotations__` are read (`__to_annotated`: the function / bound method itself, `__call__`, or `__init__`), and
+    the positional parameters with their annotation (`none` = unannotated, which `__annotations__` does not list).
   * An instance is a fresh id plus the factory identity and the values it was built from.
   * Symbols are class identities (`Nat`); `SymRef` keeps whether the reference was written in subscripted form
     (`Query[Node]`), which `_acceptable_symbol` normalises away. LazyDI keys `definitions` by `to_fullyname(symbol)`;
@@ -88,12 +91,21 @@ structure Obj where
   args : List Val
 deriving DecidableEq, Repr
 
-structure Factory where
-  fid : Nat
-  /-- `to_fullyname(factory)`; `none` = no `__qualname__` (callable object): AttributeError -/
-  qual : Option Nat
+/-- `__to_annotated(factory)` (di.py:181-186): the callable whose `__annotations__` are plucked — its identity (hash /
+    equality class of the Python object) and the parameters it declares -/
+structure Annotated where
+  aid : Nat
   params : List (Option SymRef)
 deriving DecidableEq, Repr
+
+structure Factory where
+  fid : Nat
+  /-- identity of `__to_annotated(factory)` -/
+  aid : Nat
+  params : List (Option SymRef)
+deriving DecidableEq, Repr
+
+def Factory.annotated (f : Factory) : Annotated := ⟨f.aid, f.params⟩
 
 /-- what `load_module_path` raises for a path that does not name anything (module.py:18,31) -/
 inductive LoadErr where
@@ -153,7 +165,31 @@ def merge (a b : Dict α) : Dict α := ⟨b.items.foldr (fun kv m => setL m kv.1
 /-- `k in d` -/
 def contains (m : Dict α) (k : Nat) : Bool := (get? m k).isSome
 
+/-- `{k: v for k, v in d.items() if p(k)}` -/
+def filterKeys (m : Dict α) (p : Nat → Bool) : Dict α := ⟨m.items.filter (fun kv => p kv.1)⟩
+
 end Dict
+
+/-- `DI.__invocations` (di.py:19): a dict keyed by callables -/
+structure Memo where
+  items : List (Annotated × List SymRef) := []
+deriving DecidableEq, Repr
+
+namespace Memo
+
+def getL : List (Annotated × List SymRef) → Annotated → Option (List SymRef)
+  | [], _ => none
+  | (k', v) :: m, k => if k' = k then some v else getL m k
+
+def setL : List (Annotated × List SymRef) → Annotated → List SymRef → List (Annotated × List SymRef)
+  | [], k, v => [(k, v)]
+  | (k', v') :: m, k, v => if k' = k then (k, v) :: m else (k', v') :: setL m k v
+
+def get? (m : Memo) (k : Annotated) : Option (List SymRef) := getL m.items k
+def set (m : Memo) (k : Annotated) (v : List SymRef) : Memo := ⟨setL m.items k v⟩
+def contains (m : Memo) (k : Annotated) : Bool := (get? m k).isSome
+
+end Memo
 
 /-! ## concrete state -/
 
@@ -162,7 +198,7 @@ structure Cont where
   lazy : Bool
   instances : Dict Obj := {}              -- DI.__instances   (di.py:17)
   injectors : Dict Factory := {}          -- DI.__injectors   (di.py:18)
-  invocations : Dict (List SymRef) := {}  -- DI.__invocations (di.py:19), keyed by the qualified name
+  invocations : Memo := {}                -- DI.__invocations (di.py:19), keyed by the annotated callable
   definitions : Dict Injector := {}       -- LazyDI.__definitions (di.py:275)
 deriving DecidableEq, Repr
 
@@ -239,32 +275,28 @@ def bindProxy (c : Cont) (p : Nat) : Cont × Except Err Unit :=
 
 end Cont
 
-/-- `DI.__pluck_annotations` (di.py:199-200) of `__to_annotated(factory)`: the annotated parameters, in order -/
-def pluck (f : Factory) : List SymRef := f.params.filterMap id
+/-- `DI.__pluck_annotations` (di.py:196-197): the annotated parameters of the callable, in order -/
+def pluckA (a : Annotated) : List SymRef := a.params.filterMap id
 
-/-- `self.__invocations[fullyname]` after lines di.py:158-161: the cached annotations if the qualified name was seen
-    before, otherwise the factory's own -/
+/-- the annotations `invoke` works with for a factory: those of `__to_annotated(factory)` -/
+def pluck (f : Factory) : List SymRef := pluckA f.annotated
+
+/-- `self.__invocations[annotated]` after lines di.py:157-161: the cached annotations if the callable was seen
+    before, otherwise the ones just plucked -/
 def annosFor (cached : Option (List SymRef)) (f : Factory) : List SymRef :=
   match cached with
   | some a => a
   | none => pluck f
 
-/-- the list comprehension of `__assert_invoke` (di.py:215): number of accepted arguments; `expect_types[index]`
-    raises IndexError as soon as an argument has no expected type left -/
-def countAllow : List Nat → List Arg → Except Err Nat
-  | _, [] => .ok 0
-  | [], _ :: _ => .error .indexError
-  | e :: es, a :: as =>
-    match countAllow es as with
-    | .error err => .error err
-    | .ok n => .ok (if a.ty = e then n + 1 else n)
+/-- the list comprehension of `__assert_invoke` (di.py:212): arguments accepted by their partner in `zip` -/
+def allowCount : List Arg → List Nat → Nat
+  | a :: as, e :: es => (if a.ty = e then 1 else 0) + allowCount as es
+  | _, _ => 0
 
-/-- `DI.__assert_invoke` (di.py:214-217) -/
+/-- `DI.__assert_invoke` (di.py:211-214) -/
 def assertInvoke (annos : List SymRef) (curried : List Obj) (args : List Arg) : Except Err Unit :=
   let expect := (annos.drop curried.length).map SymRef.accept
-  match countAllow expect args with
-  | .error e => .error e
-  | .ok n => if expect.length ≠ n then .error .valueError else .ok ()
+  if expect.length ≠ args.length ∨ expect.length ≠ allowCount args expect then .error .valueError else .ok ()
 
 /-- `factory(*curried_args, *remain_args)` (di.py:174): CPython's arity check, then a fresh instance -/
 def call (nx : Nat) (f : Factory) (curried : List Obj) (args : List Arg) : Nat × Except Err Obj :=
@@ -282,22 +314,20 @@ def curryWith (rec : Cont → Nat → SymRef → Res Obj) : Cont → Nat → Lis
       | (c', nx', .error e) => (c', nx', .error e)
     else (c, nx, .ok acc)
 
-/-- `DI.invoke` (di.py:157-174); `rec` is `self.resolve` -/
+/-- `DI.invoke` (di.py:157-171); `rec` is `self.resolve` -/
 def invokeWith (rec : Cont → Nat → SymRef → Res Obj) (c : Cont) (nx : Nat) (f : Factory) (args : List Arg) : Res Obj :=
-  match f.qual with
-  | none => (c, nx, .error .attributeError)
-  | some q =>
-    let found := c.invocations.contains q
-    let annos := annosFor (c.invocations.get? q) f
-    let c1 := if found then c else { c with invocations := c.invocations.set q (pluck f) }
-    match curryWith rec c1 nx annos [] with
-    | (c2, nx2, .error e) => (c2, nx2, .error e)
-    | (c2, nx2, .ok curried) =>
-      match (if found then Except.ok () else assertInvoke annos curried args) with
-      | .error e => (c2, nx2, .error e)
-      | .ok () =>
-        let (nx3, r) := call nx2 f curried args
-        (c2, nx3, r)
+  let annotated := f.annotated
+  let annos := annosFor (c.invocations.get? annotated) f
+  let c1 := if c.invocations.contains annotated then c
+    else { c with invocations := c.invocations.set annotated (pluckA annotated) }
+  match curryWith rec c1 nx annos [] with
+  | (c2, nx2, .error e) => (c2, nx2, .error e)
+  | (c2, nx2, .ok curried) =>
+    match assertInvoke annos curried args with
+    | .error e => (c2, nx2, .error e)
+    | .ok () =>
+      let (nx3, r) := call nx2 f curried args
+      (c2, nx3, r)
 
 /-- `DI.resolve` (di.py:94-102) -/
 def diResolveWith (rec : Cont → Nat → SymRef → Res Obj) (c : Cont) (nx : Nat) (r : SymRef) : Res Obj :=
@@ -331,21 +361,26 @@ def resolveF : Nat → Cont → Nat → SymRef → Res Obj
 def invokeF (fuel : Nat) (c : Cont) (nx : Nat) (f : Factory) (args : List Arg) : Res Obj :=
   invokeWith (resolveF fuel) c nx f args
 
-/-- `DI._clone` / `LazyDI._clone` (di.py:225-228, 394-396): `self.__class__()` then copied dictionaries; the
+/-- `DI._clone` / `LazyDI._clone` (di.py:222-225, 413-415): `self.__class__()` then copied dictionaries; the
     annotation cache starts empty -/
 def Cont.clone (c : Cont) : Cont :=
   { lazy := c.lazy, instances := c.instances, injectors := c.injectors, invocations := {},
     definitions := if c.lazy then c.definitions else {} }
 
-/-- `a.combine(b)` (di.py:245-251, 414-416) -/
+/-- `_binded(symbol)` for a key of the base dictionaries: DI (di.py:259) asks the base registry, LazyDI (di.py:404)
+    `can_resolve`, i.e. the definitions -/
+def Cont.binded (c : Cont) (s : Nat) : Bool :=
+  if c.lazy then c.defined s else c.injectors.contains s
+
+/-- `a.combine(b)` (di.py:242-249, 433-435) -/
 def Cont.combine (a b : Cont) : Except Err Cont :=
   if !a.lazy && b.lazy then .error .typeError            -- not isinstance(self, other.__class__)
   else if a.lazy && !b.lazy then .error .attributeError   -- other.__definitions of a plain DI
   else
     let di := a.clone
     .ok { di with
-      instances := di.instances.merge b.instances,
-      injectors := di.injectors.merge b.injectors,
+      instances := (di.instances.filterKeys (fun s => !b.binded s)).merge b.instances,
+      injectors := (di.injectors.filterKeys (fun s => !b.binded s)).merge b.injectors,
       definitions := if a.lazy then a.definitions.merge b.definitions else {} }
 
 /-- `LazyDI.instantiate` (di.py:266-270) -/
@@ -455,8 +490,6 @@ deriving DecidableEq, Repr
 @[ext] structure SCont where
   isLazy : Bool
   ents : Nat → Option SEntry
-  /-- annotations remembered per qualified name (this is part of the behaviour of the pinned code) -/
-  memo : Nat → Option (List SymRef)
 
 structure Spec where
   conts : List SCont
@@ -499,21 +532,22 @@ def sCurryWith (rec : SCont → Nat → SymRef → SRes Obj) : SCont → Nat →
       | (c', nx', .error e) => (c', nx', .error e)
     else (c, nx, .ok acc)
 
-def sInvokeWith (rec : SCont → Nat → SymRef → SRes Obj) (c : SCont) (nx : Nat) (f : Factory) (args : List Arg) : SRes Obj :=
-  match f.qual with
-  | none => (c, nx, .error .attributeError)
-  | some q =>
-    let found := (c.memo q).isSome
-    let annos := annosFor (c.memo q) f
-    let c1 : SCont := if found then c else { c with memo := fset c.memo q (some (pluck f)) }
-    match sCurryWith rec c1 nx annos [] with
-    | (c2, nx2, .error e) => (c2, nx2, .error e)
-    | (c2, nx2, .ok curried) =>
-      match (if found then Except.ok () else assertInvoke annos curried args) with
-      | .error e => (c2, nx2, .error e)
-      | .ok () =>
-        let (nx3, r) := call nx2 f curried args
-        (c2, nx3, r)
+/-- the remaining arguments must match the unresolved annotated parameters one to one, else ValueError -/
+def validateFill (annos : List SymRef) (curried : List Obj) (args : List Arg) : Except Err Unit :=
+  if args.map (fun a => a.ty) = (annos.drop curried.length).map SymRef.accept then .ok () else .error .valueError
+
+/-- the invoke law: curry the leading resolvable annotated parameters of the factory itself, validate the rest on
+    every call, then call -/
+def sInvokeFill (rec : SCont → Nat → SymRef → SRes Obj) (c : SCont) (nx : Nat) (f : Factory) (args : List Arg) : SRes Obj :=
+  let annos := pluck f
+  match sCurryWith rec c nx annos [] with
+  | (c2, nx2, .error e) => (c2, nx2, .error e)
+  | (c2, nx2, .ok curried) =>
+    match validateFill annos curried args with
+    | .error e => (c2, nx2, .error e)
+    | .ok () =>
+      let (nx3, r) := call nx2 f curried args
+      (c2, nx3, r)
 
 /-- resolve: unknown symbol → ValueError; a lazy entry is materialised first (its by-name target is loaded);
     an existing instance is returned, otherwise the factory is invoked without remaining arguments -/
@@ -529,7 +563,7 @@ def sResolveWith (rec : SCont → Nat → SymRef → SRes Obj) (c : SCont) (nx :
       match (if e.lazy then none else e.inst) with
       | some o => (c1, nx, .ok o)
       | none =>
-        match sInvokeWith rec c1 nx f [] with
+        match sInvokeFill rec c1 nx f [] with
         | (c', nx', .ok o) => (c'.setEnt s (some ⟨.direct f, false, some o⟩), nx', .ok o)
         | (c', nx', .error err) => (c', nx', .error err)
 
@@ -538,7 +572,7 @@ def sResolveF : Nat → SCont → Nat → SymRef → SRes Obj
   | fuel + 1, c, nx, r => sResolveWith (sResolveF fuel) c nx r
 
 def sInvokeF (fuel : Nat) (c : SCont) (nx : Nat) (f : Factory) (args : List Arg) : SRes Obj :=
-  sInvokeWith (sResolveF fuel) c nx f args
+  sInvokeFill (sResolveF fuel) c nx f args
 
 def sStepCont (fuel : Nat) (c : SCont) (nx : Nat) : ContOp → SCont × Nat × Out
   | .bind r f => let (c', res) := c.bind r f; (c', nx, outUnit res)
@@ -554,38 +588,23 @@ def sInstantiate : (Nat → Option SEntry) → List (Nat × Injector) → Except
   | m, (p, inj) :: rest =>
     if (m p).isSome then .error .valueError else sInstantiate (fset m p (some ⟨inj, true, none⟩)) rest
 
-/-- `a.combine(b)` on entries, as the pinned code computes it: the right operand's *materialised* binding
-    wins, but takes over the left operand's instance when it has none of its own; a right-hand definition that
-    was never resolved loses against a materialised left-hand binding -/
-def combineEnt (l r : Option SEntry) : Option SEntry :=
+/-- right-biased choice of entries: what `combine` gives per symbol -/
+def preferRight (l r : Option SEntry) : Option SEntry :=
   match r with
+  | some e => some e
   | none => l
-  | some re =>
-    if re.lazy then
-      match l with
-      | some le => if le.lazy then some re else some le
-      | none => some re
-    else
-      match re.inst with
-      | some _ => some re
-      | none =>
-        match l with
-        | some le => some { re with inst := le.inst }
-        | none => some re
 
 def SCont.combine (a b : SCont) : Except Err SCont :=
   if !a.isLazy && b.isLazy then .error .typeError
   else if a.isLazy && !b.isLazy then .error .attributeError
-  else .ok { isLazy := a.isLazy, ents := fun s => combineEnt (a.ents s) (b.ents s), memo := fun _ => none }
-
-def SCont.clone (c : SCont) : SCont := { c with memo := fun _ => none }
+  else .ok { isLazy := a.isLazy, ents := fun s => preferRight (a.ents s) (b.ents s) }
 
 def specStep (fuel : Nat) (σ : Spec) : Op → Spec × Out
-  | .newDI => ({ σ with conts := σ.conts ++ [⟨false, fun _ => none, fun _ => none⟩] }, .cont σ.conts.length)
+  | .newDI => ({ σ with conts := σ.conts ++ [⟨false, fun _ => none⟩] }, .cont σ.conts.length)
   | .newLazy defs =>
     match sInstantiate (fun _ => none) defs with
     | .error e => (σ, .err e)
-    | .ok m => ({ σ with conts := σ.conts ++ [⟨true, m, fun _ => none⟩] }, .cont σ.conts.length)
+    | .ok m => ({ σ with conts := σ.conts ++ [⟨true, m⟩] }, .cont σ.conts.length)
   | .on i op =>
     match σ.conts[i]? with
     | none => (σ, .bad)
@@ -595,7 +614,7 @@ def specStep (fuel : Nat) (σ : Spec) : Op → Spec × Out
   | .clone i =>
     match σ.conts[i]? with
     | none => (σ, .bad)
-    | some c => ({ σ with conts := σ.conts ++ [c.clone] }, .cont σ.conts.length)
+    | some c => ({ σ with conts := σ.conts ++ [c] }, .cont σ.conts.length)
   | .combine i j =>
     match σ.conts[i]?, σ.conts[j]? with
     | some a, some b =>
@@ -625,42 +644,12 @@ def touches (c s : Nat) : Op → Bool
 /-- the abstract entry of symbol `s` in container `c` -/
 def look (σ : Spec) (c s : Nat) : Option SEntry := (σ.conts[c]?).bind (fun sc => sc.ents s)
 
-/-- right-biased choice of entries: what `combine` should give per symbol -/
-def preferRight (l r : Option SEntry) : Option SEntry :=
-  match r with
-  | some e => some e
-  | none => l
-
 /-- the container an op is addressed to (creating ops address none of the existing ones) -/
 def Op.target : Op → Option Nat
   | .on c _ => some c
   | _ => none
 
-/-! ## the invoke law (ideal behaviour the property statement asks for) -/
-
-/-- the remaining arguments must match the unresolved annotated parameters one to one, else ValueError -/
-def validateFill (annos : List SymRef) (curried : List Obj) (args : List Arg) : Except Err Unit :=
-  if args.map (fun a => a.ty) = (annos.drop curried.length).map SymRef.accept then .ok () else .error .valueError
-
-/-- invoke as the law describes it: curry the leading resolvable annotated parameters *of the factory itself*,
-    validate the rest on every call, then call. (The memo is still written so that states stay comparable; it is
-    never read.) -/
-def sInvokeFill (rec : SCont → Nat → SymRef → SRes Obj) (c : SCont) (nx : Nat) (f : Factory) (args : List Arg) : SRes Obj :=
-  match f.qual with
-  | none => (c, nx, .error .attributeError)
-  | some q =>
-    let annos := pluck f
-    let c1 : SCont := if (c.memo q).isSome then c else { c with memo := fset c.memo q (some annos) }
-    match sCurryWith rec c1 nx annos [] with
-    | (c2, nx2, .error e) => (c2, nx2, .error e)
-    | (c2, nx2, .ok curried) =>
-      match validateFill annos curried args with
-      | .error e => (c2, nx2, .error e)
-      | .ok () =>
-        let (nx3, r) := call nx2 f curried args
-        (c2, nx3, r)
-
-/-- the law as a step on the Spec heap -/
+/-- the invoke law as a step on the Spec heap (this is what `specStep` does for an `invoke` op) -/
 def fillStep (fuel : Nat) (σ : Spec) (i : Nat) (f : Factory) (args : List Arg) : Spec × Out :=
   match σ.conts[i]? with
   | none => (σ, .bad)
@@ -673,21 +662,6 @@ def Injector.facs : Injector → List Factory
   | .direct f => [f]
   | .named _ f => [f]
   | .broken _ _ => []
-
-def ContOp.facs : ContOp → List Factory
-  | .bind _ f => [f]
-  | .rebind _ f => [f]
-  | .invoke f _ => [f]
-  | _ => []
-
-def Op.facs : Op → List Factory
-  | .newLazy defs => defs.flatMap (fun kv => kv.2.facs)
-  | .on _ op => op.facs
-  | _ => []
-
-/-- factories that share a qualified name agree on their annotated parameters -/
-def Coherent (fs : List Factory) : Prop :=
-  ∀ f ∈ fs, ∀ g ∈ fs, ∀ q, f.qual = some q → g.qual = some q → pluck f = pluck g
 
 /-! ## abstraction function -/
 
@@ -702,8 +676,7 @@ def absEnt (c : Cont) (s : Nat) : Option SEntry :=
       | none => none
     else none
 
-def absC (c : Cont) : SCont :=
-  { isLazy := c.lazy, ents := absEnt c, memo := c.invocations.get? }
+def absC (c : Cont) : SCont := { isLazy := c.lazy, ents := absEnt c }
 
 def abs (σ : State) : Spec := ⟨σ.conts.map absC, σ.next⟩
 
